@@ -95,10 +95,12 @@ def hygiene():
                     problems.append(f"{path.relative_to(VERIF)}:{lineno}: {word}")
             if re.match(r"^End\b", s) and depth > 0:
                 depth -= 1
-    proj = (COQ / "_CoqProject").read_text()
-    for bad in ("type-in-type", "impredicative-set", "-vos", "-vok"):
-        if bad in proj:
-            problems.append(f"_CoqProject: {bad}")
+    for f in (COQ / "_CoqProject", VERIF / "bin" / "build"):
+        if f.exists():
+            txt = f.read_text()
+            for bad in ("type-in-type", "impredicative-set", "-vos ", "-vok ", "-noinit"):
+                if bad in txt and "never -vos" not in txt.split(bad)[0][-40:]:
+                    problems.append(f"{f.name}: {bad}")
     return problems
 
 
@@ -110,29 +112,12 @@ class CoqError(Exception):
     pass
 
 
-def _lock():
-    BUILD.mkdir(parents=True, exist_ok=True)
-    f = open(BUILD / ".lock", "w")
-    fcntl.flock(f, fcntl.LOCK_EX)
-    return f
-
-
 def coq_make(targets=(), timeout=1800):
-    """Full .vo build of the requested targets (all when empty)."""
-    lk = _lock()
-    try:
-        mk = COQ / "Makefile"
-        proj = COQ / "_CoqProject"
-        if (not mk.exists()) or mk.stat().st_mtime < proj.stat().st_mtime:
-            subprocess.run(
-                ["coq_makefile", "-f", "_CoqProject", "-o", "Makefile"],
-                cwd=COQ, check=True, capture_output=True,
-            )
-        cmd = ["timeout", str(timeout), "make", "-j16"] + list(targets)
-        r = subprocess.run(cmd, cwd=COQ, capture_output=True, text=True)
-        return r.returncode, r.stdout + r.stderr
-    finally:
-        lk.close()
+    """Full .vo build of the requested targets (all when empty) through bin/build
+    (which regenerates _CoqProject from the files on disk, under a lock)."""
+    env = dict(os.environ, BUILD_TIMEOUT=str(timeout))
+    r = subprocess.run([str(VERIF / "bin" / "build")] + list(targets), capture_output=True, text=True, env=env)
+    return r.returncode, r.stdout + r.stderr
 
 
 def coqc_file(path, timeout=600, extra_q=()):
@@ -301,7 +286,11 @@ def load_known():
     p = VERIF / "known_findings.json"
     if not p.exists():
         return []
-    return json.loads(p.read_text())["findings"]
+    out = json.loads(p.read_text())["findings"]
+    extra = os.environ.get("VERIF_KNOWN_EXTRA")
+    if extra and os.path.exists(extra):
+        out = out + json.loads(open(extra).read())["findings"]
+    return out
 
 
 class Verdict:
